@@ -17,7 +17,14 @@ pub struct C12Case {
 pub struct C12;
 
 pub fn odd_value(i: usize) -> Value {
-    match i % 24 {
+    match i % 30 {
+        // long texts, plain and in multi-byte characters at both byte alignments, a deep and a wide value
+        24 => json!("long-ascii-".repeat(300)),
+        25 => json!("\u{e9}".repeat(1500)),
+        26 => json!(format!("x{}", "\u{e9}".repeat(1500))),
+        27 => json!(format!("ab{}", "\u{1F697}".repeat(700))),
+        28 => (0..30).fold(json!("deep"), |v, _| json!([v])),
+        29 => Value::Object((0..200).map(|k| (format!("key{}", k), json!(k))).collect()),
         0 => Value::Null,
         1 => json!(true),
         2 => json!(false),
@@ -158,7 +165,7 @@ fn raw_json() -> impl Strategy<Value = Value> {
         (-1000i64..1000).prop_map(|i| json!(i)),
         (-1000.0f64..1000.0).prop_map(|f| json!(f)),
         "[a-z_]{0,12}".prop_map(|s| json!(s)),
-        (0usize..24).prop_map(odd_value),
+        (0usize..30).prop_map(odd_value),
     ];
     leaf.prop_recursive(3, 24, 4, |inner| {
         prop_oneof![
@@ -211,7 +218,7 @@ impl Prop for C12 {
         "C12"
     }
     fn rule(&self) -> String {
-        "generated: batches of 0-6 values against 8 application configurations built from files (ids; grid; vertex matching before/after grid with haversine balancer; inject + grid + custom balancer; edge orientation with edge matching; speed model with iteration limit; single-via k-shortest paths); each value is arbitrary JSON (depth <= 3, biased to query keys) or a valid query with 0-3 mutations (delete a field; retype to one of 24 odd values incl. null/bool/strings/negative/2^60/1e30/boundary coordinates/arrays/objects; add odd optional fields; 9 degenerate grid sections incl. {}, empty arrays, scalars, nested grid keys; zero/unknown/ill-typed weights; unknown model name; k in {0,1,2^60,text}; odd weight factors; identical origin and destination). Oracle: no panic, no unbounded run (watchdog with re-run), run returns Ok, response count from the JSON-level reference of the input pipeline, every response an object with error or result that echoes its request, batch = run-alone multiset. non-trivial = batch with at least one malformed and one valid query".to_string()
+        "generated: batches of 0-6 values against 8 application configurations built from files (ids; grid; vertex matching before/after grid with haversine balancer; inject + grid + custom balancer; edge orientation with edge matching; speed model with iteration limit; single-via k-shortest paths); each value is arbitrary JSON (depth <= 3, biased to query keys) or a valid query with 0-3 mutations (delete a field; retype to one of 30 odd values incl. null/bool/strings/texts of 3000 bytes in multi-byte characters/a 30-deep array/a 200-key object/negative/2^60/1e30/boundary coordinates/arrays/objects; add odd optional fields; 9 degenerate grid sections incl. {}, empty arrays, scalars, nested grid keys; zero/unknown/ill-typed weights; unknown model name; k in {0,1,2^60,text}; odd weight factors; identical origin and destination). Oracle: no panic, no unbounded run (watchdog with re-run), run returns Ok, response count from the JSON-level reference of the input pipeline, every response an object with error or result that echoes its request, batch = run-alone multiset. non-trivial = batch with at least one malformed and one valid query".to_string()
     }
     fn cases(&self, tier: Tier) -> u32 {
         tier.pick(30_000, 1_000_000)
